@@ -35,8 +35,7 @@ AslT == <<
   T("-#u", <<Sw("-", "#", <<"u">>)>>), T("-~L", <<Sw("-", "~", <<"L">>)>>),
   T("s2", <<Plain("s2")>>), T("@kd", <<KeyRef("kd")>>), T("@nokey", <<KeyRef("nokey")>>) >>
 \* the core alphabet for the deeper runs: one of each kind
-AslCore == {"-q", "+q", "-L", "+L", "-x", "-D A", "-D A=2", "+D A", "-i p1", "-i p2", "+i p1", "-o o1", "+o",
-            "-cpu Z80", "+cpu", "-g", "-z", "s2", "@kd"}
+AslCore == {"-q", "+q", "-L", "-D A", "-D A=2", "+D A", "-i p1", "+i p1", "-o o1", "+o", "-g", "-z", "s2", "@kd"}
 
 \* ---- p2bin: flag (-s), scalars with argument (-l, -r), list (-f), quiet in both spellings
 P2binT == <<
@@ -73,6 +72,7 @@ TW(prog, seq, a, b) == Flat([i \in 1..(IF b >= a THEN b - a + 1 ELSE 0) |-> Temp
 Placements(n) == {[k |-> "argv", j |-> 0], [k |-> "argvlast", j |-> 0], [k |-> "env", j |-> 0], [k |-> "key", j |-> 0],
                   [k |-> "envkey", j |-> 0], [k |-> "key1line", j |-> 0]}
                  \cup {[k |-> "split", j |-> j] : j \in 1..(n - 1)} \cup {[k |-> "keymid", j |-> j] : j \in 1..n}
+                 \cup (IF n >= 1 THEN {[k |-> "keytab", j |-> 0], [k |-> "keymix", j |-> 0]} ELSE {})
 Place(prog, seq, pl) ==
   LET n == Len(seq)
       all == TW(prog, seq, 1, n)
@@ -84,6 +84,11 @@ Place(prog, seq, pl) ==
        [] pl.k = "key"      -> [env |-> <<>>, keys |-> fixed @@ ("k" :> perline), argv |-> Main(prog) \o <<KeyRef("k")>>]
        [] pl.k = "envkey"   -> [env |-> <<KeyRef("k")>>, keys |-> fixed @@ ("k" :> perline), argv |-> Main(prog)]
        [] pl.k = "key1line" -> [env |-> <<>>, keys |-> fixed @@ ("k" :> <<all>>), argv |-> Main(prog) \o <<KeyRef("k")>>]
+       \* one line, a TAB between all words / a TAB behind the first word and blanks between the others
+       [] pl.k = "keytab"   -> [env |-> <<>>, keys |-> fixed @@ ("k" :> <<[i \in 1..(2 * Len(all) - 1) |-> IF i % 2 = 1 THEN all[(i + 1) \div 2] ELSE TabSep]>>),
+                                argv |-> Main(prog) \o <<KeyRef("k")>>]
+       [] pl.k = "keymix"   -> [env |-> <<>>, keys |-> fixed @@ ("k" :> <<IF Len(all) < 2 THEN all ELSE <<all[1], TabSep>> \o Tail(all)>>),
+                                argv |-> Main(prog) \o <<KeyRef("k")>>]
        [] pl.k = "split"    -> [env |-> TW(prog, seq, 1, pl.j), keys |-> fixed, argv |-> Main(prog) \o TW(prog, seq, pl.j + 1, n)]
        [] pl.k = "keymid"   -> [env |-> <<>>, keys |-> fixed @@ ("k" :> <<Templates(prog)[seq[pl.j]].ws>>),
                                 argv |-> Main(prog) \o TW(prog, seq, 1, pl.j - 1) \o <<KeyRef("k")>> \o TW(prog, seq, pl.j + 1, n)]
@@ -91,5 +96,9 @@ Place(prog, seq, pl) ==
 \* the scanner as coded gives the same answer as the scanner without the named deviations
 DevFree(prog, I) == Scan(prog, I, Devs) = Scan(prog, I, {})
 \* the deviations that matter for this input (each switched off alone changes the answer)
-LiveDevs(prog, I) == {d \in Devs : Scan(prog, I, Devs) # Scan(prog, I, Devs \ {d})}
+\* a command line of n times the quiet switch behind the file arguments (the parameter count is what matters)
+Bulk(prog, n) == [env |-> <<>>, keys |-> "kd" :> FixedKey(prog), argv |-> Main(prog) \o [i \in 1..n |-> S("-", <<"q">>)]]
+LiveDevs(prog, I) == LET sd == Scan(prog, I, Devs)
+                     IN IF sd = Scan(prog, I, {}) THEN {} ELSE {d \in Devs : sd # Scan(prog, I, Devs \ {d})}
+HasTab(I) == \E k \in DOMAIN I.keys : \E i \in 1..Len(I.keys[k]) : \E j \in 1..Len(I.keys[k][i]) : IsTabSep(I.keys[k][i][j])
 =============================================================================
